@@ -134,6 +134,9 @@ def spec_function(text, globs):
     if isinstance(n, ast.Attribute) and isinstance(n.value, ast.Name) and n.value.id == "rec" \
         and not isinstance(n.ctx, ast.Load):
       raise NotValid("invalid", "assignment to rec.attr")
+    if isinstance(n, ast.Attribute) and isinstance(n.value, ast.Name) and n.value.id == "rec" \
+        and n.attr == "x":
+      raise NotValid("unclear", "reads its own column (a circular reference in the engine)")
     if isinstance(n, (ast.arg,)) and n.arg == "rec":
       raise NotValid("unclear", "parameter named rec")
     if isinstance(n, (ast.Yield, ast.YieldFrom, ast.Await, ast.AsyncFor, ast.AsyncWith)):
